@@ -58,12 +58,12 @@ def alphabet(tier):
 def run(tier, seed, jobs):
     from .hcommon import run_h
 
-    depth = 3 if tier == "quick" else 5
+    depth = 3 if tier == "quick" else 4
     A = "A"
     core = [{"s": A, "op": "del", "set": "*"}, {"s": A, "op": "del", "set": "1"}, {"s": A, "op": "append", "m": "INBOX"},
             {"s": "env", "op": "deliver", "m": "INBOX"}, {"s": "env", "op": "restart"}, {"s": "env", "op": "poll", "dt": 21.0}]
     return run_h(PROP, RULES, [{"cfg_ref": ("vf.props.c02", "cfg", []), "alphabet": alphabet(tier), "depth": depth, "label": "INBOX(2),a,a/b"},
-                               {"cfg_ref": ("vf.props.c02", "cfg", []), "alphabet": core, "depth": 5 if tier == "quick" else 7,
+                               {"cfg_ref": ("vf.props.c02", "cfg", []), "alphabet": core, "depth": 5 if tier == "quick" else 6,
                                 "label": "INBOX selected; core alphabet (messages go, come, pack, restart), deep"}],
                  ("C02",), jobs, seed,
                  ["one session; mailboxes INBOX(2 messages), a, a/b; pack threshold lowered to 3 messages / ratio 0.8 via the class attributes",
